@@ -264,8 +264,9 @@ def _fix_expr_parts(expr, V, U_offset, exp_function):
     if not expr.has(exp_function):  # Expressions without exp don't have GHK-like equations
         return (None, None, None, expr, False)
 
-    if isinstance(expr, Mul):  # 1 * A --> A (remove unneeded 1 *)
-        expr = Mul(*[a for a in expr.args if not str(a) in ('1.0', '1')])
+    if isinstance(expr, Mul):  # 1 * A --> A (remove unneeded 1 *); a 1 that carries a unit is needed
+        expr = Mul(*[a for a in expr.args if not (str(a) in ('1.0', '1') and
+                                                  str(getattr(a, 'units', 'dimensionless')) == 'dimensionless')])
 
     # Turn Quantity dummies into numbers, to enable analysis
     subs_dict = {d: d.evalf(FLOAT_PRECISION) for d in expr.atoms(Quantity)}
